@@ -56,6 +56,8 @@ func main() {
 		code = scenarioSegments()
 	case "reset":
 		code = scenarioReset()
+	case "resolve":
+		code = scenarioResolve()
 	case "pintime":
 		code = scenarioPinTime()
 	default:
